@@ -204,6 +204,8 @@ impl BufferPool {
 
         self.alloc_count.fetch_add(1, Ordering::AcqRel);
 
+        #[cfg(rten_verif)]
+        crate::verif::yield_point("pool_alloc_enter");
         let mut buffers = self.buffers.lock().unwrap();
 
         // Find best fit item that matches the requested type and size with
@@ -234,6 +236,8 @@ impl BufferPool {
         // No suitable buffer was found. Fall back to the global allocator, but
         // release the mutex before we do.
         std::mem::drop(buffers);
+        #[cfg(rten_verif)]
+        crate::verif::yield_point("pool_alloc_miss");
 
         Vec::with_capacity(capacity)
     }
@@ -244,6 +248,8 @@ impl BufferPool {
     /// to fulfill future allocation requests.
     pub fn add<B: Into<Buffer>>(&self, buf: B) {
         let buf: Buffer = buf.into();
+        #[cfg(rten_verif)]
+        crate::verif::yield_point("pool_add_enter");
         if buf.layout.size() >= self.min_size {
             self.buffers.lock().unwrap().push(buf);
         }
